@@ -959,8 +959,11 @@ func (e *Env) captureOpts(rec *OpRec, spec *RPCSpec) {
 	if spec.UseTrailerOpt {
 		rec.Extra["trl_opt"] = mdString(spec.trlOpt)
 	}
-	if spec.UsePeerOpt && spec.peerOpt.Addr != nil {
-		rec.Extra["peer_opt"] = spec.peerOpt.Addr.String()
+	if spec.UsePeerOpt {
+		rec.Extra["peer_opt"] = "<none>"
+		if spec.peerOpt.Addr != nil {
+			rec.Extra["peer_opt"] = spec.peerOpt.Addr.String()
+		}
 	}
 	if spec.UseChanOpt {
 		rec.Extra["chan_opt"] = fmt.Sprintf("%p", spec.chanOpt)
